@@ -13,7 +13,7 @@ claimed = {c['property_id'] for c in checks}
 m = {
  "version": 1,
  "setup_cmd": "./setup.sh",
- "hooks": {"guard": "cfg(kani)", "enable": "cargo kani sets cfg(kani); everything else runs from external harness crates and MIR dumps of the unmodified crate", "baseline_off_cmd": "cd /repo && cargo test --workspace --no-fail-fast --offline", "source_commits": [], "add_only": True},
+ "hooks": {"guard": "none", "enable": "no source hooks: every harness is an external crate around freshly emitted code or a MIR dump of the unmodified lelwel crate; interception happens at MIR call edges inside the interpreter", "baseline_off_cmd": "cd /repo && cargo test --workspace --no-fail-fast --offline", "source_commits": [], "add_only": True},
  "engines": [
    {"name": "MIRSE", "path": "mirse/", "serves_properties": sorted(claimed), "kind_free_text": "path-wise symbolic executor for rustc MIR (Python + z3): token kinds and callback outcomes symbolic, every branch on symbolic data decided by z3, property = query PC and not P per path, counterexamples replayed on the natively built real parser"},
  ],
